@@ -57,6 +57,8 @@ def pipeline(prop, tier, fam):
                 import random
                 rnd = random.Random(seed)
                 cases = rnd.sample(cases, limit)
+            if m.get("setup"):
+                cases.insert(0, m["setup"](world))
             cpath = os.path.join(wd, m["name"] + ".cases.ndjson")
             vlib.write_ndjson(cpath, cases)
             tpath = os.path.join(wd, m["name"] + ".trace.ndjson")
